@@ -173,7 +173,8 @@ def eq_case(draw):
     if gam * eff > 1e3 or gam * eff < -1e6:
         gam = gam / eff
     spec = draw(G.grid_spec(min_pts=8, max_pts=40, kinds=('uniform', 'exponential', 'quadratic', 'random')))
-    return dict(gamma=gam, h=h, beta=beta, nu=nu, theta0=draw(st.floats(0.1, 10.0)), grid=spec)
+    # the density functions also accept a grid of interior frequencies only (no 0 and 1)
+    return dict(gamma=gam, h=h, beta=beta, nu=nu, theta0=draw(st.floats(0.1, 10.0)), grid=spec, interior=draw(st.sampled_from([False, False, False, True])))
 
 
 @REG.relation('R2-equilibrium-density', strategy=eq_case, quick=(192, 16), thorough=(6000, 16))
@@ -182,9 +183,17 @@ def r2(c, rec):
     breeding ratio) wherever the density is not negligible - including both sides of every numerical regime switch."""
     from harness.refs import seleq as S
     xx = G.make_grid(c['grid'])
+    # (only the genic and neutral forms provide for it - `if xx[0] == 0 and xx[-1] == 1 ... else ...`; the general-h form always
+    # treats its first and last points as the boundaries, and nothing documents more)
+    interior = bool(c.get('interior')) and c['h'] == 0.5
     with dadi_call('phi_1D'):
-        phi = np.asarray(PhiManip.phi_1D(xx, nu=c['nu'], theta0=c['theta0'], gamma=c['gamma'], h=c['h'], beta=c['beta']), float)
-    lab = ['h=0.5' if c['h'] == 0.5 else 'h!=0.5', 'beta=1' if c['beta'] == 1 else 'beta!=1', 'nu=1' if c['nu'] == 1 else 'nu!=1',
+        if interior:
+            phi = np.asarray(PhiManip.phi_1D(xx[1:-1], nu=c['nu'], theta0=c['theta0'], gamma=c['gamma'], h=c['h'], beta=c['beta']), float)
+            require(phi.shape == xx[1:-1].shape, 'phi_1D on an interior grid returned shape %r' % (phi.shape,))
+            phi = np.concatenate([[phi[0]], phi, [phi[-1]]])       # aligned with xx; the end values are not judged
+        else:
+            phi = np.asarray(PhiManip.phi_1D(xx, nu=c['nu'], theta0=c['theta0'], gamma=c['gamma'], h=c['h'], beta=c['beta']), float)
+    lab = (['interior grid'] if interior else []) + ['h=0.5' if c['h'] == 0.5 else 'h!=0.5', 'beta=1' if c['beta'] == 1 else 'beta!=1', 'nu=1' if c['nu'] == 1 else 'nu!=1',
            'gamma=0' if c['gamma'] == 0 else ('gamma<-300' if c['gamma'] < -300 else ('gamma>300' if c['gamma'] > 300 else 'moderate gamma'))]
     rec.case(c, c['gamma'] != 0 or c['beta'] != 1, lab)
     require(np.isfinite(phi).all(), 'phi_1D returned non-finite values (gamma=%r h=%r nu=%r beta=%r)' % (c['gamma'], c['h'], c['nu'], c['beta']))
